@@ -41,8 +41,8 @@ claimed.update({
  "C16": dict(text="Slice: deductive proof of panic-freedom and totality of Validator.typeOfValue for every value (including set, record and extension literals decoded from JSON), and of termination and panic-freedom of the walk over a possibly cyclic entity-type hierarchy (isEntityDescendantFrom: recursion measure = number of schema entity types not yet seen).",
              note="Resolution (cycle detection for common types and action groups), isActionDescendant (terminates only because the resolver rejects action cycles - a cross-function invariant not under contract) and the rest of the type checker are unverified surroundings. The three facts about the measure (finite-set cardinality) are axioms.",
              ref="DESIGN.md §6 C16"),
- "C06": dict(text="Slice: deductive proof that the partial evaluator decides a scope clause exactly when the request part is a concrete entity, with the verdict the full semantics gives (equality, reachability, reachability of some member of the set form - soundness and completeness -, type test), that unknown parts leave the clause in place and ignored parts satisfy it.",
-             note="Only partialScopeEval and the three scope wrappers are under contract. The expression-level partial evaluator (partial, tryPartial, partialAnd/Or/IfThenElse) and PartialPolicy's condition handling are unverified surroundings; the suspected unsoundness for unknowns nested in composite values (DESIGN.md section 6) is therefore neither proved absent nor recorded as a finding.",
+ "C06": dict(text="Deductive proof (a) that the partial evaluator decides a scope clause exactly when the request part is a concrete entity, with the verdict of the full semantics (equality, reachability incl. the set form - sound and complete -, type tests); (b) of the structure of partial() for 27 node kinds and of partialAnd/Or/IfThenElse: children are processed in source order, the first error other than 'depends on an unknown' decides, an operator is evaluated only when every child became a literal and then with exactly the evaluator of the full semantics (ToEval), an unknown result keeps the rebuilt node, otherwise the node is rebuilt; (c) per-operator lemmas that a literal placed in the residual is fully known when the operands, the policy literals and the entity store are, and that an operator's result on literal operands depends on the environment only through the entity store - hence is the same under every completion of the request.",
+             note="Known finding (recorded, not repaired): a request part that is a composite value with an unknown nested inside is treated as a literal, so whole-value operators (contains, ==, ...) are evaluated while unknown - PartialPolicy drops a policy that a completion satisfies; the lemma for request variables is proved outside that region only. Not under contract: Has, extension calls, set and record literals inside partial (shape only / nothing), PartialPolicy's condition loop (keep/drop, error embedding, ignore semantics). The induction over the expression tree that combines the per-operator lemmas is applied outside the solver.",
              ref="DESIGN.md §6 C06"),
  "C15": dict(text="Slice: deductive proof that the validator accepts a comparison (<, <=, >, >=) only if both operand types are one and the same comparable type, which is the condition under which the evaluator's comparison cannot raise a type error (one genuine defect found and repaired here).",
              note="One function contract (Validator.typeOfComparison over an opaque typeOfExpr). Validator soundness as a whole - every operator, capabilities, request environments, entity store conformance - is a type-soundness theorem outside function-level contracts; everything else in the validator is unverified surroundings. Assumed: Unwrap() []error of joined errors has no nil entries.",
